@@ -467,8 +467,9 @@ def create_model(config, gas, temperature, pressure, planet, star, observation=N
     log.debug('Chosen_model is {}'.format(klass))
     kwargs = get_keywordarg_dict(klass, is_mixin)
     log.debug('Model kwargs {}'.format(kwargs))
-    log.debug('---------------{} {}--------------'.format(gas,
-                                                          gas.activeGases))
+    # gas is None when the input file has no [Chemistry] section
+    log.debug('---------------{} {}--------------'.format(
+        gas, getattr(gas, 'activeGases', None)))
     if 'planet' in kwargs:
         kwargs['planet'] = planet
     if 'star' in kwargs:
